@@ -143,8 +143,8 @@ func cmdVerify(args []string) {
 				fmt.Printf("    %-70s %s (want %s) %s %.2fs\n", o.Name, o.Verdict, o.Expect, o.Solver, o.Time)
 				if !o.OK && o.Note != "" {
 					n := o.Note
-					if len(n) > 700 {
-						n = n[:700]
+					if len(n) > 160 {
+						n = n[:160]
 					}
 					fmt.Printf("      note: %s\n", n)
 				}
